@@ -21,7 +21,8 @@ LEVEL = 'exploration'
 RULE = ('Archives of 0..5 members (duplicate names, sizes 0..200 odd and even, content over a header-look-alike alphabet, '
         'with/without final newline, maximal-width header fields, GNU "name/" and bare name styles) x interleaved '
         'histories of <= 40 calls of read()/read(n)/readline()/readline(n)/readlines()/seek(p,0|1|2)/tell() across members, '
-        'in fileobj= and filename= mode; object lifetimes around the history: the ArFile object dropped (and collected) before the '
+        'in fileobj= mode (BytesIO, TemporaryFile, os.fdopen, a real file whose path was unlinked / given to another archive after '
+        'opening) and filename= mode; object lifetimes around the history: the ArFile object dropped (and collected) before the '
         'members are read, members close()d or merely dropped afterwards, one path per process rewritten with each next archive, '
         'a second ArFile on the same path whose members are read alternately with the first.  Non-trivial: >= 2 members, history touches >= 2 of them and contains a readline* '
         'or a seek followed by a read.')
@@ -35,10 +36,12 @@ ANCHORS = ['debian.arfile:ArFile.__collect_members', 'debian.arfile:ArMember.fro
            'debian.arfile:ArMember.tell', 'debian.arfile:ArFile.getmember']
 MUST_REACH = ANCHORS
 FLOORS = {'quick': {'nontrivial': 800, 'monitors': {'M.op': 30000, 'K9': 10000, 'M.listing': 1000},
-                    'counters': {'archive-object-dropped-before-reads': 2400, 'filename:members-dropped-unclosed': 1300,
+                    'counters': {'fileobj-kind:tempfile': 500, 'fileobj-kind:fdopen': 500, 'fileobj-kind:unlinked': 500, 'fileobj-kind:replaced': 500,
+                                 'archive-object-dropped-before-reads': 2400, 'filename:members-dropped-unclosed': 1300,
                                  'filename:path_reuse': 1300, 'filename:twin': 650, 'op-through-twin': 4000}},
           'thorough': {'nontrivial': 40000, 'monitors': {'M.op': 1500000, 'K9': 500000, 'M.listing': 50000},
-                       'counters': {'archive-object-dropped-before-reads': 120000, 'filename:members-dropped-unclosed': 65000,
+                       'counters': {'fileobj-kind:tempfile': 50000, 'fileobj-kind:fdopen': 50000, 'fileobj-kind:unlinked': 50000, 'fileobj-kind:replaced': 50000,
+                                    'archive-object-dropped-before-reads': 120000, 'filename:members-dropped-unclosed': 65000,
                                     'filename:path_reuse': 65000, 'filename:twin': 32000, 'op-through-twin': 200000}}}
 LEVEL_TEXT = ('Runtime monitoring: seeded interleaved operation histories on live ArMember objects, each result compared with an '
               'io.BytesIO shadow of the member data the harness itself packed; listing/metadata/getmember compared with the '
@@ -138,6 +141,8 @@ def cases(ctx):
         # the archive object dropped while its members are still read; members never close()d, only dropped; the same
         # path rewritten with the next archive; a second ArFile on the same path read alternately with the first
         case['drop_ar'] = r.random() < .3
+        if case['mode'] == 'fileobj':
+            case['fobj'] = r.choice(['bytesio', 'bytesio', 'bytesio', 'tempfile', 'fdopen', 'unlinked', 'replaced'])
         if case['mode'] == 'filename':
             case['path_reuse'] = r.random() < .5
             case['close'] = r.random() < .5
@@ -202,7 +207,35 @@ def run_case(ctx, case):
     holder = {'ars': [], 'live': []}
     try:
         if case['mode'] == 'fileobj':
-            tf = probes.TracingFile(io.BytesIO(raw))
+            # the file OBJECT is the archive: whatever name it carries (an int descriptor, a path that has meanwhile been
+            # unlinked or taken by another archive) says nothing about where to read
+            fk = case.get('fobj', 'bytesio')
+            ctx.count('fileobj-kind:' + fk)
+            if fk == 'bytesio':
+                under = io.BytesIO(raw)
+            elif fk == 'tempfile':
+                import tempfile
+                under = tempfile.TemporaryFile()
+                under.write(raw)
+                under.seek(0)
+            else:
+                if not _DIR:
+                    _DIR.append(ctx.tmpdir())
+                fpath = os.path.join(_DIR[0], 'fobj%d.ar' % ctx.evaluations)
+                with open(fpath, 'wb') as f:
+                    f.write(raw)
+                if fk == 'fdopen':
+                    under = os.fdopen(os.open(fpath, os.O_RDONLY), 'rb')
+                    os.unlink(fpath)
+                else:
+                    under = open(fpath, 'rb')
+                    os.unlink(fpath)
+                    if fk == 'replaced':
+                        with open(fpath, 'wb') as f:        # another archive now lives under the name the object carries
+                            f.write(build_ar([{'name': 'decoy', 'data': 'not this one\n', 'uid': 0, 'gid': 0, 'mtime': 1}], 'gnu'))
+                        holder['unlink'] = fpath
+            holder['under'] = under
+            tf = probes.TracingFile(under)
             holder['ars'].append(arfile.ArFile(fileobj=tf))
         else:
             if not _DIR:
@@ -221,6 +254,16 @@ def run_case(ctx, case):
             ctx.count('filename:members-%s' % ('closed' if case.get('close', True) else 'dropped-unclosed'))
         _history(ctx, case, holder, members, ops, raw, tf)
     finally:
+        if holder.get('under') is not None:
+            try:
+                holder['under'].close()
+            except Exception:
+                pass
+        if holder.get('unlink'):
+            try:
+                os.unlink(holder['unlink'])
+            except OSError:
+                pass
         if path:
             if case.get('close', True):
                 try:
